@@ -35,6 +35,7 @@ package crypto
 //@   trusted kyber tbls: soundness of BLS verification (assumed)
 //@   modifies nothing
 //@   ensures err == nil ==> validSig(public, msg, sig)
+//@   ensures [C10] err != nil ==> !validSig(public, msg, sig)
 
 //@ iface (github.com/drand/kyber/sign.ThresholdScheme).VerifyPartial(ts, public, msg, sig) (err)
 //@   trusted kyber tbls: soundness of partial verification against the public polynomial (assumed)
@@ -59,6 +60,7 @@ package crypto
 //@   props C01 C10
 //@   modifies nothing
 //@   ensures [C01:verify-beacon-binds-round-previous-and-signature] err == nil && typeis(b, "*github.com/drand/drand/v2/common.Beacon") ==> validSig(pubkey, digestOf(s, as(b, "*github.com/drand/drand/v2/common.Beacon").Round, as(b, "*github.com/drand/drand/v2/common.Beacon").PreviousSig), as(b, "*github.com/drand/drand/v2/common.Beacon").Signature)
+//@   ensures [C10:verify-beacon-rejects-exactly-the-invalid-signatures] err != nil && typeis(b, "*github.com/drand/drand/v2/common.Beacon") ==> !validSig(pubkey, digestOf(s, as(b, "*github.com/drand/drand/v2/common.Beacon").Round, as(b, "*github.com/drand/drand/v2/common.Beacon").PreviousSig), as(b, "*github.com/drand/drand/v2/common.Beacon").Signature)
 
 // ---- C20: scheme table ------------------------------------------------------------------------------------
 // The kyber library (pairing suites, threshold/auth schemes) is assumed not to touch any state of the functions
